@@ -47,7 +47,11 @@ func (r *c08Rec) fails(fn, kind, msg string) {
 
 type c08NS struct{ r *c08Rec }
 
-func (n *c08NS) Mul(a, b int) int { n.r.invoked("ns_mul", a, b); n.r.values("ns_mul", a*b); return a * b }
+func (n *c08NS) Mul(a, b int) int {
+	n.r.invoked("ns_mul", a, b)
+	n.r.values("ns_mul", a*b)
+	return a * b
+}
 
 func c08Service(r *c08Rec) (*core.Service, map[string]string) {
 	s := core.NewService()
@@ -68,7 +72,11 @@ func c08Service(r *c08Rec) (*core.Service, map[string]string) {
 		r.values("concat", v)
 		return v
 	}, "concat")
-	pub(func(a int, s string) (int, string) { r.invoked("pair", a, s); r.values("pair", a+1, s+"!"); return a + 1, s + "!" }, "pair")
+	pub(func(a int, s string) (int, string) {
+		r.invoked("pair", a, s)
+		r.values("pair", a+1, s+"!")
+		return a + 1, s + "!"
+	}, "pair")
 	pub(func(msg string) error { r.invoked("fail", msg); r.fails("fail", "error", msg); return errors.New(msg) }, "fail")
 	pub(func(x int) (int, error) {
 		r.invoked("failres", x)
@@ -86,7 +94,11 @@ func c08Service(r *c08Rec) (*core.Service, map[string]string) {
 	pub(func(m map[string]int) map[string]int { r.invoked("m", m); r.values("m", m); return m }, "m")
 	pub(func(l []string) []string { r.invoked("l", l); r.values("l", l); return l }, "l")
 	pub(func() { r.invoked("nothing"); r.values("nothing") }, "nothing")
-	pub(func(b []byte, f float32, u uint8) ([]byte, float32, uint8) { r.invoked("MixedCaseW", b, f, u); r.values("MixedCaseW", b, f, u); return b, f, u }, "MixedCaseW")
+	pub(func(b []byte, f float32, u uint8) ([]byte, float32, uint8) {
+		r.invoked("MixedCaseW", b, f, u)
+		r.values("MixedCaseW", b, f, u)
+		return b, f, u
+	}, "MixedCaseW")
 	s.AddInstanceMethods(&c08NS{r}, "ns")
 	table["ns_mul"] = "ns_mul"
 	return s, table
